@@ -37,7 +37,7 @@ func (eng) Assumptions() []string {
 func (eng) Cases(seed uint64, tier string) []core.CaseDesc {
 	n := 400
 	if tier == "thorough" {
-		n = 12000
+		n = 150000
 	}
 	var cs []core.CaseDesc
 	for i := 0; i < n; i++ {
